@@ -386,6 +386,13 @@ func c02Docs(shape *jShape, seed int64, r *rng, tier string) []string {
 			}
 			continue
 		}
+		// null at every value position (null leaves a target as it is: whatever an earlier member or element put
+		// into shared scratch must not show), and the neighbouring literals swapped
+		for _, s := range sp {
+			if !s.isKey && len(sp) <= 12 {
+				add(base[:s.s] + "null" + base[s.e:])
+			}
+		}
 		for m := 0; m < nm/len(bases)+2; m++ {
 			s := sp[r.intn(len(sp))]
 			var rep string
